@@ -18,6 +18,10 @@ KeysStr3 == <<"a", "b", "a">>      KindsStr3 == <<"str", "str", "str">>
 KeysMix3 == <<"a", "l", "l">>      KindsMix3 == <<"str", "list", "list">>
 KeysCol3 == <<"a", "c", "c">>      KindsCol3 == <<"str", "coll", "coll">>
 KeysStr4 == <<"a", "b", "a", "b">> KindsStr4 == <<"str", "str", "str", "str">>
+KeysMix2 == <<"a", "l">>           KindsMix2 == <<"str", "list">>
+KeysStr2 == <<"a", "a">>           KindsStr2 == <<"str", "str">>
+Via12 == <<n1, n2>>
+Via11 == <<n1, n1>>
 Via111 == <<n1, n1, n1>>
 Via121 == <<n1, n2, n1>>
 Via1111 == <<n1, n1, n1, n1>>
@@ -32,4 +36,26 @@ Emit ==
                                     applying |-> ~QEmpty(n), waiting |-> (waiting[n] # {}),
                                     down |-> Cardinality({m \in Nodes : ~up[m]}),
                                     unsaved |-> (rd[n].e2 > wal[n].ents)]))
+
+\* Partial-order reduction (ACTION_CONSTRAINT POR).  A step is URGENT when it only moves volatile state that no other
+\* node reads and no invariant observes: AppendStor, Send, Advance, the no-snapshot branch of Trigger (they change
+\* pc / rd / stor.last of their own node) and Apply (kv, applyQ, resCh of its own node; it can only enable Publish,
+\* Trigger, PubSnap and Reply of the same node).  They commute with every step of every other node, and a Crash of
+\* the node before or after them leads to the same state (Down resets exactly what they wrote).  While some node has
+\* an urgent step, only the urgent step of ONE such node is explored.
+UrgentPc(n) == up[n] /\ (pc[n] \in {"append", "send", "advance"}
+                         \/ (pc[n] = "trigger" /\ appliedIndex[n] - snapshotIndex[n] <= SnapCount))
+UrgentApply(n) == up[n] /\ ~QEmpty(n)
+POR == LET U == {n \in Nodes : UrgentPc(n) \/ UrgentApply(n)} IN
+       U = {} \/ LET n == CHOOSE x \in U : TRUE IN
+                 up'[n] /\ IF UrgentApply(n) THEN applyQ'[n] # applyQ[n] /\ pc'[n] = pc[n] ELSE pc'[n] # pc[n]
+
+\* Schedule restriction for the larger 3-node instances (ACTION_CONSTRAINT Serial): a node takes a Ready only while
+\* every other node is between two cycles (or down).  Crashes stay possible at every stage of the running cycle.
+\* Nodes influence each other only through what TakeReady reads (wal, stor, up of the others), so this drops the
+\* executions in which two nodes BOTH take a Ready before either has saved; the unrestricted interleavings are
+\* covered exhaustively by the 2-node and 1-node instances and by random simulation of the 3-node instance.
+InCycle(n) == pc[n] \notin {"idle", "down"}
+Serial == \A n \in Nodes : (pc[n] = "idle" /\ pc'[n] \notin {"idle", "down"}) => \A m \in Nodes \ {n} : ~InCycle(m)
+PORSerial == POR /\ Serial
 =============================================================================
